@@ -30,7 +30,7 @@ CHECKS = {
     'C06': dict(
         level='fault_enumeration',
         technique='fault enumeration over k in five classes (progress-handler callbacks, SQLite authorizer denials, sys.monitoring line failpoints in wn/_add.py, mid-DELETE VM aborts, corrupted references) with a byte-level table-dump oracle and an online SQL transaction-bracket checker',
-        text='Fault enumeration on real executions: for generated resources on a non-empty database every fault point of a class is first counted in a dry run on a copy, then injected one at a time (quick: sampled k incl. first/last and one per distinct source line; thorough: every k) into wn.add of a resource, wn.add of an ILI index and wn.remove of a base with an extension chain; a removal issued directly after a failed add is audited too; after each fault the logical dump of all 24 tables (rowids included) must equal the dump before the call, the SQL trace must show no commit inside the failed call, the pooled connection must still serve reads, and finally the real operation must give the same database as without the faults. Counts of injected/interrupted/survived faults per class are in the evidence.',
+        text='Fault enumeration on real executions: for generated resources on a non-empty database every fault point of a class is first counted in a dry run on a copy, then injected one at a time (quick: sampled k incl. first/last and one per distinct source line; thorough: every k) into wn.add of a resource, wn.add of an ILI index and wn.remove of a base with an extension chain; a removal issued directly after a failed add is audited too; one case per run adds a generated lexicon of >= 1100 entries and synsets (every bulk table crosses the 1000-row batch size of the library) in each corrupted variant and requires the dump to be unchanged and the valid add to store every word afterwards; after each fault the logical dump of all 24 tables (rowids included) must equal the dump before the call, the SQL trace must show no commit inside the failed call, the pooled connection must still serve reads, and finally the real operation must give the same database as without the faults. Counts of injected/interrupted/survived faults per class are in the evidence.',
         note='Unit of atomicity = one resource (add) / one lexicon with its extensions (remove). A fault firing after the operation committed is not an interrupted operation (only the completed state is then also admissible). The harness drops the exception before probing usability (a traceback kept alive keeps the library cursor alive).',
         ref='3/C06'),
     'C07': dict(
@@ -45,7 +45,7 @@ CHECKS = {
         ref='3/C04'),
     'C05': dict(
         technique='history monitor: reference model of the installed set + structural audit of the SQLite file after every operation + observation vs model + second real execution (fresh database) at the end',
-        text='Runtime monitoring over random add/remove/ILI histories (with adds that fail half-way, reconnects and unobserved steps) on a universe of related lexicons: after every operation the installed set, dependency links and a structural audit (foreign keys, ownership, dangling references, link columns) are checked, observations of every family are compared with the model every few operations, every removed lexicon is added again, and the final database is compared with a fresh one built from just the installed lexicons. Held on K histories.',
+        text='Runtime monitoring over random add/remove/ILI histories (with adds that fail half-way, reconnects and unobserved steps) on a universe of related lexicons (two versions of a base, extension chain, dependents with installed/missing providers, look-alike specifiers b_:1 / UN:1 / %:* that match a required provider only as a pattern): after every operation the installed set, dependency links and a structural audit (foreign keys, ownership, dangling references, link columns) are checked, observations of every family are compared with the model every few operations, every removed lexicon is added again, and the final database is compared with a fresh one built from just the installed lexicons. Held on K histories.',
         note='ILI inventory and cross-lexicon order excluded as the statement says. Known finding: extension tags/pronunciations survive removal.',
         ref='3/C05'),
     'C08': dict(
@@ -65,7 +65,7 @@ CHECKS = {
         ref='3/C10'),
     'C11': dict(
         technique='reference-model monitor of relation queries with type-argument sets + closure/relation_paths vs reachability and simple-path enumeration + step monitor (get_related expansions) as bounded-progress termination check',
-        text='Runtime monitoring on dense relation multigraphs (self-loops, cycles, parallel relations differing in type, dc:type or metadata, duplicates, made-up types) over base+extension families in four scopes: relations(), get_related(), get_related_synsets(), relation_map(), closure(), relation_paths() and the hypernyms()/.. shortcuts are compared with the model for six type-argument sets per entity; expansions per call are counted against a budget derived from the graph. Held on K families.',
+        text='Runtime monitoring on dense relation multigraphs (self-loops, cycles, parallel relations differing in type, dc:type or metadata, duplicates, made-up types) over base+extension families in four scopes: relations(), get_related(), get_related_synsets(), relation_map(), closure(), relation_paths() and the hypernyms()/.. shortcuts are compared with the model for six type-argument sets per entity; in every second family the base lexicon is walked that way before the other lexicons (with relation types it does not use) are added over the same connection; expansions per call are counted against a budget derived from the graph. Held on K families.',
         note='ILIs absent/disjoint so that expansion (C12) adds nothing.',
         ref='3/C11'),
     'C12': dict(
